@@ -65,44 +65,55 @@ def mc_consts(**over):
 
 
 def gen_inputs(ctx, sd):
-    """Command logs: random walks over three focus configurations + exhaustive short logs after prefixes."""
-    behs = []
+    """Command logs: random walks over focus configurations + exhaustive short logs after prefixes.
+    The generator runs are independent JVMs: run side by side."""
+    import concurrent.futures
     n = ctx.pick(120, 1500)
     glen = ctx.pick(30, 40)
     allp = q("empty", "n3rf1", "n3rf2", "n2rf2", "n3rf3", "trunc", "trunc0", "meta", "acct")
+    jobs = []   # (tag, autocreate, cfg name, constants, kwargs of tlc_generate, max behaviours)
     # (a) everything
-    c = dict(base_consts(), GenLen=glen, Sim=True, Gaps=[1, 2], Prefixes=allp)
-    ctx.write_cfg(sd, "GenAll.cfg", "GSpec", c, extra="INVARIANT Emit")
-    behs += [("all", True, b) for b in ctx.tlc_generate(sd, "MetaDataGen", "GenAll.cfg", num=n, depth=glen + 1, timeout=900)[:n]]
+    jobs.append(("all", True, "GenAll.cfg", dict(base_consts(), GenLen=glen, Sim=True, Gaps=[1, 2], Prefixes=allp),
+                 dict(num=n, depth=glen + 1, seed=ctx.seed), n))
     # (a') the same without auto-created policies
-    c = dict(base_consts(), GenLen=glen, Sim=True, Gaps=[1, 2], Prefixes=allp, AutoCreate=False)
-    ctx.write_cfg(sd, "GenNoAuto.cfg", "GSpec", c, extra="INVARIANT Emit")
     m = max(20, n // 4)
-    behs += [("noauto", False, b) for b in ctx.tlc_generate(sd, "MetaDataGen", "GenNoAuto.cfg", num=m, depth=glen + 1, seed=ctx.seed + 1000, timeout=900)[:m]]
+    jobs.append(("noauto", False, "GenNoAuto.cfg", dict(base_consts(), GenLen=glen, Sim=True, Gaps=[1, 2], Prefixes=allp, AutoCreate=False),
+                 dict(num=m, depth=glen + 1, seed=ctx.seed + 1000), m))
     # (b) shard-group algebra on one database / two policies, few names so that most commands hit
-    c = dict(base_consts(), GenLen=glen, Sim=True, Gaps=[1, 2, 3],
-             Prefixes=q("n3rf1", "n3rf2", "n2rf2", "n3rf3", "trunc", "trunc0", "meta"),
-             DbN=q("a"), RpN=q("p", "q"), UpdNames=q("<none>"), UpdDurs=[NONE, 0], Times=list(range(0, 12)),
-             Cmds=q(*(GROUP_CMDS + ["UpdateRetentionPolicy", "UpdateDataNode", "CreateMetaNode", "DropRetentionPolicy", "CreateRetentionPolicy"])))
-    ctx.write_cfg(sd, "GenGroups.cfg", "GSpec", c, extra="INVARIANT Emit")
-    behs += [("groups", True, b) for b in ctx.tlc_generate(sd, "MetaDataGen", "GenGroups.cfg", num=n, depth=glen + 1, seed=ctx.seed + 2000, timeout=900)[:n]]
+    jobs.append(("groups", True, "GenGroups.cfg",
+                 dict(base_consts(), GenLen=glen, Sim=True, Gaps=[1, 2, 3],
+                      Prefixes=q("n3rf1", "n3rf2", "n2rf2", "n3rf3", "trunc", "trunc0", "meta"),
+                      DbN=q("a"), RpN=q("p", "q"), UpdNames=q("<none>"), UpdDurs=[NONE, 0], Times=list(range(0, 12)),
+                      Cmds=q(*(GROUP_CMDS + ["UpdateRetentionPolicy", "UpdateDataNode", "CreateMetaNode", "DropRetentionPolicy",
+                                             "CreateRetentionPolicy"]))),
+                 dict(num=n, depth=glen + 1, seed=ctx.seed + 2000), n))
     # (c) accounts: users, privileges, continuous queries, subscriptions
-    c = dict(base_consts(), GenLen=glen, Sim=True, Gaps=[1], Prefixes=q("acct", "empty"), DbN=q("", "a", "b"), RpN=q("p"),
-             ObjN=q("", "a"), Cmds=q(*ACCT_CMDS))
-    ctx.write_cfg(sd, "GenAcct.cfg", "GSpec", c, extra="INVARIANT Emit")
     m = max(30, n // 3)
-    behs += [("acct", True, b) for b in ctx.tlc_generate(sd, "MetaDataGen", "GenAcct.cfg", num=m, depth=glen + 1, seed=ctx.seed + 3000, timeout=900)[:m]]
-    # (d) exhaustive: every command sequence of length 2 (quick) over a reduced domain after each prefix
-    for pref, plen in (("n3rf2", 6), ("trunc", 6), ("trunc0", 5), ("n2rf2", 4)):
+    jobs.append(("acct", True, "GenAcct.cfg",
+                 dict(base_consts(), GenLen=glen, Sim=True, Gaps=[1], Prefixes=q("acct", "empty"), DbN=q("", "a", "b"), RpN=q("p"),
+                      ObjN=q("", "a"), Cmds=q(*ACCT_CMDS)),
+                 dict(num=m, depth=glen + 1, seed=ctx.seed + 3000), m))
+    # (d) exhaustive: every command sequence of length 2 over a reduced domain after each prefix
+    xpref = ctx.pick((("trunc0", 5), ("n2rf2", 4)), (("n3rf2", 6), ("trunc", 6), ("trunc0", 5), ("n2rf2", 4)))
+    for pref, plen in xpref:
         d = 2
-        c = dict(base_consts(), GenLen=plen + d, Sim=False, Gaps=[1], Prefixes=q(pref),
-                 DbN=q("a"), RpN=q("p"), UpdNames=q("<none>"), UpdDurs=[NONE], UpdRFs=[NONE, 1], UpdSGDs=[NONE, 3],
-                 Times=ctx.pick([0, 3, 4], [0, 2, 3, 4, 5]), Addrs=q("h4"),
-                 Cmds=q(*(GROUP_CMDS + ["UpdateRetentionPolicy"])))
-        ctx.write_cfg(sd, "GenX.cfg", "GSpec", c, extra="INVARIANT Emit")
-        got = ctx.tlc_generate(sd, "MetaDataGen", "GenX.cfg", exhaustive=True, workers=4, timeout=900)
-        behs += [("x-" + pref, True, b) for b in got]
-    return behs
+        jobs.append(("x-" + pref, True, "GenX-%s.cfg" % pref,
+                     dict(base_consts(), GenLen=plen + d, Sim=False, Gaps=[1], Prefixes=q(pref),
+                          DbN=q("a"), RpN=q("p"), UpdNames=q("<none>"), UpdDurs=[NONE], UpdRFs=[NONE, 1], UpdSGDs=[NONE, 3],
+                          Times=ctx.pick([0, 3, 4], [0, 2, 3, 4, 5]), Addrs=q("h4"), SameAddr=True,
+                          Cmds=q(*(GROUP_CMDS + ["UpdateRetentionPolicy"]))),
+                     dict(exhaustive=True, workers=2), None))
+    for (tag, auto, cfg, c, kw, lim) in jobs:
+        ctx.write_cfg(sd, cfg, "GSpec", c, extra="INVARIANT Emit")
+
+    def one(job):
+        tag, auto, cfg, c, kw, lim = job
+        got = ctx.tlc_generate(sd, "MetaDataGen", cfg, timeout=1200, **kw)
+        return [(tag, auto, b) for b in (got[:lim] if lim else got)]
+
+    with concurrent.futures.ThreadPoolExecutor(max_workers=4) as ex:
+        parts = list(ex.map(one, jobs))
+    return [b for p in parts for b in p]
 
 
 def replay(ctx, behs, reps, label):
@@ -142,6 +153,8 @@ def run(ctx):
     t0 = time.time()
     mc(ctx, sd)
     log("C06: model checking %.0fs" % (time.time() - t0))
+    if os.environ.get("C06_MC_ONLY"):
+        return ctx.finish("model_checking", {})
 
     # 2. command logs -> real storeFSM replicas
     t0 = time.time()
@@ -169,12 +182,56 @@ def run(ctx):
         "deletion stamps are wall-clock values: only their age class (none / fresh / older than two weeks) is compared"])
 
 
+def mc_families(ctx):
+    """One exhaustive configuration per property family (DESIGN 4.2): name -> constants."""
+    t = not ctx.quick()
+    fam = {}
+    # policy algebra: create/drop/alter of databases and policies, auto-created policy vs node count
+    fam["Policy"] = mc_consts(
+        Cmds=q("CreateDatabase", "DropDatabase", "CreateRetentionPolicy", "DropRetentionPolicy", "UpdateRetentionPolicy", "CreateDataNode"),
+        UpdNames=q("<none>", "q") if not t else q("<none>", "q", ""), UpdDurs=[NONE, 1, 4], UpdRFs=[NONE, 0], UpdSGDs=[NONE, 3],
+        RFs=[0, 1], Durs=[0, 4], SGDs=[0, 3], SameAddr=True, MaxNodeId=1 if not t else 2)
+    # time ranges: creation with clipping, truncation, deletion, ageing, pruning, change of the shard duration
+    fam["Ranges"] = mc_consts(
+        InitKind='"rp1n1"', DbN=q("a"), RpN=q("p"), SameAddr=True, MaxNodeId=1,
+        Cmds=q("CreateShardGroup", "DeleteShardGroup", "TruncateShardGroups", "PruneShardGroups", "Age", "UpdateRetentionPolicy"),
+        UpdSGDs=[NONE, 3] if not t else [NONE, 3, 2], Times=list(range(0, 6)) if not t else list(range(0, 7)),
+        MaxGroupId=2 if not t else 3, MaxShardId=9)
+    # owners: placement of new groups, shard drop, owner copy/removal, node removal with reassignment
+    fam["Owners"] = mc_consts(
+        InitKind='"rp2n3"', DbN=q("a"), RpN=q("p"), SameAddr=True, Addrs=q("h1", "h2", "h3"), MaxNodeId=3,
+        Cmds=q("CreateShardGroup", "DeleteShardGroup", "DropShard", "CopyShardOwner", "RemoveShardOwner", "DeleteDataNode", "UpdateRetentionPolicy"),
+        UpdRFs=[NONE, 3] if not t else [NONE, 1, 3], Times=[0, 4], Ixs=[0, 1] if not t else [0, 1, 2],
+        MaxGroupId=1 if not t else 2, MaxShardId=3 if not t else 5)
+    # nodes: data/meta node create/update/delete, shared ids, groups created on the resulting node lists
+    fam["Nodes"] = mc_consts(
+        InitKind='"rp2"', DbN=q("a"), RpN=q("p"), Addrs=q("h1", "h2"), SameAddr=False if t else True, Rands=[7] if not t else [7, 9],
+        Cmds=q("CreateDataNode", "UpdateDataNode", "DeleteDataNode", "CreateMetaNode", "SetMetaNode", "DeleteMetaNode", "CreateShardGroup"),
+        Times=[0], Ixs=[0, 1], MaxNodeId=2 if not t else 3, MaxMeta=2, MaxGroupId=1, MaxShardId=2)
+    # accounts: users, privileges, continuous queries, subscriptions against create/drop of databases and policies
+    fam["Accounts"] = mc_consts(
+        AutoCreate=False, DbN=q("", "a"), RpN=q("p"), ObjN=q("", "a") if not t else q("", "a", "b"),
+        Cmds=q(*ACCT_CMDS), RFs=[1], Durs=[0], SGDs=[0], Hashes=q("x", "y"), Queries=q("q1", "Q1", "q2"), Privs=[1, 3],
+        DestSets=q("d1", "bad"), MaxUsers=1 if not t else 2, MaxCqs=1, MaxSubs=1, MaxRps=1)
+    return fam
+
+
 def mc(ctx, sd):
-    quick = ctx.quick()
-    to = ctx.pick(400, 1800)
-    # policy algebra
-    c = mc_consts(Cmds=q("CreateDatabase", "DropDatabase", "CreateRetentionPolicy", "DropRetentionPolicy", "UpdateRetentionPolicy", "CreateDataNode"),
-                  UpdNames=q("<none>", "q"), UpdDurs=[NONE, 1, 4], UpdRFs=[NONE, 0], UpdSGDs=[NONE, 3],
-                  RFs=[0, 1], Durs=[0, 4], SGDs=[0, 3])
-    ctx.write_cfg(sd, "MCPolicy.cfg", "Spec", c, INVS, "Bounded", extra=PROPS)
-    ctx.tlc_check(sd, "MetaData", "MCPolicy.cfg", workers=8, timeout=to)
+    """The families are independent: run them side by side (each TLC with 4 workers)."""
+    import concurrent.futures
+    fam = mc_families(ctx)
+    to = ctx.pick(600, 2400)
+    for name, c in fam.items():
+        ctx.write_cfg(sd, "MC%s.cfg" % name, "Spec", c, INVS, "Bounded", extra=PROPS)
+
+    def one(name):
+        return name, ctx.tlc_check(sd, "MetaData", "MC%s.cfg" % name, workers=4, timeout=to, heap="3g")
+
+    only = os.environ.get("C06_MC_ONLY")
+    names = [n for n in fam if not only or n in only.split(",")]
+    with concurrent.futures.ThreadPoolExecutor(max_workers=len(names)) as ex:
+        res = list(ex.map(one, names))
+    for name, r in res:
+        log("C06: MC %-8s %8d distinct %10d generated %6.1fs" % (name, r["distinct"], r["generated"], r["wall_s"]))
+        if r["distinct"] < 50:
+            raise Infra("exhaustive configuration %s is vacuous (%d states)" % (name, r["distinct"]))
